@@ -635,6 +635,21 @@ pub fn run(args: &Args) {
     let a2 = Args { tier: args.tier.clone(), out: args.out.clone(), rest: args.rest.clone() };
     std::thread::spawn(move || {
         if let Err(e) = catch_unwind(AssertUnwindSafe(|| run_inner(&a2))) {
+            // a table that dies after it has found something reports what it found (an operation
+            // that sent nothing leaves its preloaded reply behind, and the next call trips over it)
+            let found: Vec<(String, String, serde_json::Value)> = vh::report::VIOLATION_MIRROR.lock().map(|m| m.clone()).unwrap_or_default();
+            if !found.is_empty() {
+                let mut part = Part::new("C12", "api", "seqx", "exploration", &a2.tier);
+                part.rule = "operation table (see the passing run); this run was cut short by a failure that followed the violations below".into();
+                part.evaluations = PROGRESS.load(std::sync::atomic::Ordering::SeqCst);
+                part.distinct_nontrivial = part.evaluations;
+                part.exhaustive = false;
+                for (k, d, r) in found {
+                    part.violation(&k, d, r);
+                }
+                part.finish(a2.out.as_deref());
+                std::process::exit(0);
+            }
             eprintln!("MACHINERY: api table panicked: {}", crate::slots::panic_msg(&e));
             return;
         }
